@@ -367,24 +367,34 @@ func (im *impl) dump() string {
 
 // diff compares the implementation's collections with the model; it returns
 // (facet, description) pairs.
+//
+// The point reads come first and are repeated after the full reads: a store may serve Get
+// and All from different structures (a read-optimised snapshot plus an overlay, say), and a
+// full read may refresh what the point reads see - so a Get straight after a write, before
+// any All, is an observation of its own.
 func (im *impl) diff(mo *Model) [][2]string {
-	var out [][2]string
+	out := im.diffGets(mo, "")
 	if got, want := im.u.All(), mo.wantU(); !reflect.DeepEqual(got, want) {
 		out = append(out, [2]string{"collection U All() differs from the fold", fmt.Sprintf("U.All() = %+v, fold = %+v", got, want)})
 	}
 	if got, want := im.v.All(), mo.wantV(); !reflect.DeepEqual(got, want) {
 		out = append(out, [2]string{"collection V All() differs from the fold", fmt.Sprintf("V.All() = %+v, fold = %+v", got, want)})
 	}
+	return append(out, im.diffGets(mo, " (after All)")...)
+}
+
+func (im *impl) diffGets(mo *Model, when string) [][2]string {
+	var out [][2]string
 	for _, k := range append(append([]string(nil), keys...), "absent") {
 		gu, oku := im.u.Get(k)
 		wi, wok := mo.Coll["U"][k]
 		if oku != wok || (wok && !reflect.DeepEqual(gu, uVals[wi])) {
-			out = append(out, [2]string{"collection U Get differs from the fold", fmt.Sprintf("U.Get(%q) = (%+v, %v), fold has present=%v value index %d", k, gu, oku, wok, wi)})
+			out = append(out, [2]string{"collection U Get differs from the fold" + when, fmt.Sprintf("U.Get(%q) = (%+v, %v), fold has present=%v value index %d", k, gu, oku, wok, wi)})
 		}
 		gv, okv := im.v.Get(k)
 		wi, wok = mo.Coll["V"][k]
 		if okv != wok || (wok && !reflect.DeepEqual(gv, vVals[wi])) {
-			out = append(out, [2]string{"collection V Get differs from the fold", fmt.Sprintf("V.Get(%q) = (%+v, %v), fold has present=%v value index %d", k, gv, okv, wok, wi)})
+			out = append(out, [2]string{"collection V Get differs from the fold" + when, fmt.Sprintf("V.Get(%q) = (%+v, %v), fold has present=%v value index %d", k, gv, okv, wok, wi)})
 		}
 	}
 	return out
